@@ -53,7 +53,7 @@ PROPS["C11"] = {
 }
 
 PROPS["C10"] = {
-    "files": ["hrpc/c10_roundtrip.go"],
+    "files": ["hrpc/c10_roundtrip.go", "hrpc/c10_encodings.go"],
     "claim": "Every cell with row/family/qualifier/value up to F bytes each (all byte values, all lengths incl. empty), any 64-bit "
              "timestamp and any type byte, appended to a buffer with arbitrary prior content, decodes by the client's decoder and by "
              "an independent KeyValue decoder to the identical fields, consuming exactly cellblockLen bytes; prior content untouched.",
@@ -61,6 +61,8 @@ PROPS["C10"] = {
     "assumptions": [],
     "jobs": [
         {"name": "cell_roundtrip", "pkg": "hrpc", "entry": "VerifCellRoundTrip", "reach": ["roundtrip"],
-         "params": {"quick": {"F": 2, "P": 2, "PX": 2}, "thorough": {"F": 3, "P": 2, "PX": 40}}},
+         "params": {"quick": {"F": 3, "P": 2, "PX": 2}, "thorough": {"F": 4, "P": 2, "PX": 40}}},
+        {"name": "two_encodings", "pkg": "hrpc", "entry": "VerifTwoEncodings", "reach": ["compared"], "native_retries": 12,
+         "params": {"quick": {"FAMS": 2, "QUALS": 1}, "thorough": {"FAMS": 2, "QUALS": 2}}},
     ],
 }
